@@ -283,4 +283,6 @@ LEVEL_TEXT = ("Mixed, claimed as 'other'.  Unbounded deductive proof over all se
               "BIP340 and that key aggregation is order independent; exhaustive table of the tree generators for (k, n) <= 5; MuSig n = 4, 5, tampering and "
               "leaf spends bounded.")
 LEVEL_NOTE = ("assumes the discrete-log model, uninterpreted hashes, A-NEGL, parse_xonly replaced by its proved contract inside the MuSig contracts; "
-              "n = 3 only in the thorough tier; the (1, 1) constructor defect found here is repaired (fix: caac338)")
+              "n = 3 only in the thorough tier; the (1, 1) constructor defect found here is repaired (fix: caac338); the symbolic session contracts "
+              "assume both nonce sums finite - sessions whose nonce secrets cancel in one slot (AttributeError on the pinned tree, repaired by "
+              "fix: e6684ca) and sessions with repeated nonce pairs are decided by run-time contracts only")
